@@ -24,7 +24,7 @@ REQUIRED_FEATURES = ["dump:region", "dump:region2", "dump:fill-lower", "dump:joi
                      "dump:one-based-ids", "dump:one-based-ids-alone", "dump:one-based-starts", "dump:header",
                      "dump:table-bins", "dump:table-chroms", "roundtrip:coo", "roundtrip:bg2", "roundtrip:one-based",
                      "roundtrip:square", "layout:load-nonmonotone", "layout:cload-pairs-nonmonotone", "via:subprocess",
-                     "bins-arg:chromsizes:binsize", "dump:fill-lower-straddling"]
+                     "bins-arg:chromsizes:binsize", "dump:fill-lower-straddling", "roundtrip:duplex"]
 
 
 def plan(tier, seed):
@@ -336,11 +336,16 @@ def roundtrip_case(ctx, cid, rng, idx):
                 dargs.append("--join")
                 if one:
                     dargs.append("--one-based-starts")
+            duplex = bool(fmt == "bg2" and symm and rng.random() < 0.4)
+            if duplex:
+                dargs.append("--fill-lower")       # both triangles in the text: the loader must drop one copy
+                c.feature("roundtrip:duplex")
             rc, out, exc = invoke(dargs + [path])
             if not c.check(rc == 0, "dump-failed", f"cooler {' '.join(dargs)} exit {rc}: {exc}"):
                 continue
             out_uri = os.path.join(d, f"rt_{fmt}.cool")
             largs = ["load", "-f", fmt, "--chunksize", str(csz)] + (["--one-based"] if one else []) + \
+                    (["--input-copy-status", "duplex"] if duplex else []) + \
                     ([] if symm else ["--no-symmetric-upper"]) + [bins_arg, txt, out_uri]
             if not P:
                 continue       # an empty text file is not a loadable table
